@@ -17,21 +17,26 @@ otherwise is recorded by `C08_newline_out_of_scope` (it panics) and covered by t
 `l = p ++ [w] ++ "(" ++ K ++ Q ++ ")"`, `w` white space, `K` a documented kind name or empty,
 `Q` one of `?`, `*`, `+` or empty, not both empty.
 
-Round trip (after fix 2c946ec of `Rule::to_expression_string`): the canonical form of every
-expectation reads back as `reread P e` -- `e` itself, except that an `equal` expectation with
-unprintable content is deliberately written as `escaped` -- with the same quantifier, exactly when
-the rule constructor reproduces the expression from the text it is handed
-(`makeRule P (sourceKind P e) (sourceText P e) = some e.expr`). That is a contract on the rule
-constructors and the escaper, parameters here: for `equal` it says the printable rendering is
-the text, for `no-eol`/`regex` that `from_utf8_lossy` gives the text back (and, `regex`, that
-making is idempotent), for `escaped`/`glob` that unescaping inverts escaping (C04/C11).
-No guard on the shape of the text is left: `ends_like_modifier` over-approximates the grammar
-(`C08_ends_like_modifier_sound`).
-The contract is FALSE today in one known situation, oracle class
-`C08:escaped-no-eol-strip-roundtrip` (open finding): `EscapedRule::make` drops a trailing
-` (no-eol)` (Cram compatibility), so an `equal` text with unprintable characters that ends in
-` (no-eol)` -- witness `a<TAB> (no-eol) (equal)` -- is written `a\t (no-eol) (escaped)` and reads
-back without ` (no-eol)`. By `C08_roundtrip_iff` the round trip fails exactly there.
+Round trip (after fixes 2c946ec and its partial revert): the canonical form of every expectation
+reads back as `reread P e` -- `e` itself, except that an `equal` expectation with unprintable
+content is deliberately written as `escaped` -- with the same quantifier, exactly when the rule
+constructor reproduces the expression from the text it is handed
+(`makeRule P (sourceKind P e) (sourceText P e) = some e.expr`, `C08_roundtrip`, `C08_roundtrip_iff`).
+That is a contract on the rule constructors and the escaper, parameters here: for `equal` it says
+the printable rendering is the text, for `escaped`/`glob` that unescaping inverts escaping
+(C04/C11), for `regex` and `no-eol` -- which have no escaped syntax and are written through the
+escaper for display -- that the printable rendering is the text (and, `regex`, that making is
+idempotent). No guard on the shape of the text is left: `ends_like_modifier` over-approximates the
+grammar (`C08_ends_like_modifier_sound`).
+The contract is FALSE today in two known situations (open findings):
+* `C08:escaped-pattern-roundtrip`: a `regex` or `no-eol` expression with unprintable characters
+  (under `--escaper ascii`: any non-ASCII character) is displayed with escape sequences and read
+  back literally -- decidable guard `P.hasUnprintable e.expr = false`
+  (`C08_roundtrip_noEol_guarded`), necessity `C08_roundtrip_noEol_iff`, witness `a<TAB> (no-eol)`
+  (`C08_roundtrip_fails_on_escaped_pattern_witness`);
+* `C08:escaped-no-eol-strip-roundtrip`: `EscapedRule::make` drops a trailing ` (no-eol)` (Cram
+  compatibility), so bytes ending in it do not survive being written as an `escaped` expectation
+  -- witness `a<TAB> (no-eol) (equal)` (`C08_roundtrip_fails_on_witness`).
 -/
 namespace Scrut.Props.C08
 open Scrut.Grammar
@@ -147,6 +152,34 @@ theorem C08_roundtrip_fails_on_witness (P : Params) (hw : P.isWhite ' ' = true)
     parse P (toExpressionString P ⟨.equal, b, false, false⟩) ≠ .ok (reread P ⟨.equal, b, false, false⟩) :=
   roundtrip_fails_no_eol_strip hw hsub hu ht hmk hne
 
+/-- `no-eol` keeps its text, so its round trip holds exactly when the displayed text is the text -/
+theorem C08_roundtrip_noEol_iff (P : Params) (hw : P.isWhite ' ' = true)
+    (hsub : ∀ c, P.isWhite c = true → P.isSpaceStd c = true) (b : List UInt8) (o m : Bool)
+    (hnl : '\n' ∉ P.escPrintable b) :
+    parse P (toExpressionString P ⟨.noEol, b, o, m⟩) = .ok ⟨.noEol, b, o, m⟩ ↔
+      utf8 (P.escPrintable b) = b :=
+  roundtrip_noEol_iff hw hsub hnl
+
+/-- under the decidable guard "nothing unprintable" and the escaper's contract (printable bytes are
+displayed as they are) a `no-eol` expectation reads back -/
+theorem C08_roundtrip_noEol_guarded (P : Params) (hw : P.isWhite ' ' = true)
+    (hsub : ∀ c, P.isWhite c = true → P.isSpaceStd c = true) (b : List UInt8) (o m : Bool)
+    (hnl : '\n' ∉ P.escPrintable b) (hguard : P.hasUnprintable b = false)
+    (hesc : P.hasUnprintable b = false → utf8 (P.escPrintable b) = b) :
+    parse P (toExpressionString P ⟨.noEol, b, o, m⟩) = .ok ⟨.noEol, b, o, m⟩ :=
+  (roundtrip_noEol_iff hw hsub hnl).mpr (hesc hguard)
+
+/-- the guard is needed (open finding `C08:escaped-pattern-roundtrip`): the `no-eol` expectation
+`a<TAB>` is displayed `a\\t (no-eol)`, which reads back as the four characters `a\\t` -/
+theorem C08_roundtrip_fails_on_escaped_pattern_witness (P : Params) (hw : P.isWhite ' ' = true)
+    (hsub : ∀ c, P.isWhite c = true → P.isSpaceStd c = true)
+    (ht : P.escPrintable [0x61, 0x09] = ['a', '\\', 't']) :
+    parse P (toExpressionString P ⟨.noEol, [0x61, 0x09], false, false⟩) =
+      .ok ⟨.noEol, [0x61, 0x5c, 0x74], false, false⟩ ∧
+    parse P (toExpressionString P ⟨.noEol, [0x61, 0x09], false, false⟩) ≠
+      .ok ⟨.noEol, [0x61, 0x09], false, false⟩ :=
+  roundtrip_fails_escaped_pattern hw hsub ht
+
 /-- `reread` is the identity except for `equal` with unprintable content -/
 theorem C08_reread_eq (P : Params) (e : Expectation)
     (h : e.kind = .equal → P.hasUnprintable e.expr = false) : reread P e = e :=
@@ -181,7 +214,7 @@ theorem C08_roundtrip_equal_modifier_shaped (P : Params) (hw : P.isWhite ' ' = t
 def P0 : Params :=
   { isWhite := fun c => c == ' ', make := fun _ t => some (utf8 t),
     escPrintable := fun _ => ['f', 'o', 'o'], hasUnprintable := fun _ => false,
-    isSpaceStd := fun c => c == ' ', lossy := fun _ => ['f', 'o', 'o'] }
+    isSpaceStd := fun c => c == ' ' }
 
 example : Modifier P0.isWhite ['f', 'o', 'o', ' ', '(', 'g', 'l', '?', ')'] ['f', 'o', 'o'] ['g', 'l'] (some '?') :=
   ⟨' ', by decide, Or.inr (by decide), by simp; decide, by simp, by simp⟩
